@@ -128,3 +128,25 @@ Theorem C07_detU_luU_is_det (K : fieldType) (n : nat) (wT : mx K) (sgn : K) (A :
   (detU n sgn [seq p.2 | p <- luU n wT A L0 U0 L0inv U0inv])`_d = (\det (pmx [seq mo a | a <- A]))`_d.
 Proof. exact: detU_luU_is_det. Qed.
 Print Assumptions C07_detU_luU_is_det.
+
+(* ---- logdet (utpm.py: log|c| + sum log|u_ii| on the LU factors) is a logarithm of det as formal power series: with the executable
+   kernels luU and logdetU,  det(t) * logdet'(t) = det'(t)  modulo t^(D-1), for every size and every D over every field of
+   characteristic 0, whenever U_0 has no zero on its diagonal (base values log|u_ii(0)|, |u_ii(0)| and signs as NumPy returns them) *)
+From AlgoV Require Import Logdet LogdetSpec.
+Theorem C07_logdetU_luU_spec (K : fieldType) : [char K]%R =i pred0 -> forall (n : nat) (wT : mx K) (sgn : K) (A : seq (mx K))
+  (L0 U0 L0inv U0inv : mx K) (sgn0 abs0 l0 : seq K) d,
+  let mo := mx_of n n in
+  let Us := [seq p.2 | p <- luU n wT A L0 U0 L0inv U0inv] in
+  is_unit_lower (mo L0) -> is_upper (mo U0) -> mo L0 *m mo U0 = mo wT *m mo (nth [::] A 0) ->
+  mo L0inv *m mo L0 = 1%:M -> mo U0 *m mo U0inv = 1%:M -> sgn * \det (mo wT) = 1 ->
+  (forall i, (i < n)%N -> mxget (nth [::] Us 0) i i != 0 /\ nth 0 sgn0 i * nth 0 sgn0 i = 1 /\
+                          nth 0 abs0 i = nth 0 sgn0 i * mxget (nth [::] Us 0) i i) ->
+  (d.+1 < size A)%N ->
+  let dt := \det (pmx [seq mo a | a <- A]) in
+  (dt * (Poly (logdetU n Us sgn0 abs0 l0))^`())`_d = (dt^`())`_d.
+Proof. move=> ch n wT sgn A L0 U0 L0inv U0inv sgn0 abs0 l0 d; exact: (logdetU_luU_spec ch). Qed.
+Print Assumptions C07_logdetU_luU_spec.
+Theorem C07_logS_deriv (K : fieldType) : [char K]%R =i pred0 -> forall (xs : seq K) (l0 : K) d, xs`_0 != 0 -> (d.+1 < size xs)%N ->
+  (Poly xs * (Poly (logS xs l0))^`())`_d = ((Poly xs)^`())`_d.
+Proof. move=> ch xs l0 d; exact: (logS_deriv ch). Qed.
+Print Assumptions C07_logS_deriv.
